@@ -74,6 +74,9 @@ type Case struct {
 	// "nilfs" = vuego.NewFS(nil) / NewVue(nil). Calls in an unusual order (Render without Load,
 	// Load of a missing file, ...) are entries of their own: see misuseEntries.
 	Engine string `json:"engine,omitempty"`
+	// WantErr: the file set contains an include cycle that the page reaches unconditionally:
+	// the statement promises an ERROR for it (not output cut off at the depth limit).
+	WantErr bool `json:"want_err,omitempty"`
 }
 
 // misuseEntries: the Template API called in an order nobody intends; each call has to return.
@@ -399,42 +402,48 @@ func checkNow(c Case) (err error) {
 			root = vuego.NewFS(fsys, opts...)
 		}
 	}
+	var lastErr error
 	renderOnce := func() {
+		var err error
+		defer func() { lastErr = err }()
 		switch c.Entry {
 		case "load":
-			_ = root.Load("page.vuego").Fill(data).Render(ctx, w)
+			err = root.Load("page.vuego").Fill(data).Render(ctx, w)
 		case "file":
-			_ = root.New().Fill(data).RenderFile(ctx, w, "page.vuego")
+			err = root.New().Fill(data).RenderFile(ctx, w, "page.vuego")
 		case "string":
-			_ = root.New().Fill(data).RenderString(ctx, w, c.Files["page.vuego"])
+			err = root.New().Fill(data).RenderString(ctx, w, c.Files["page.vuego"])
 		case "vue":
-			_ = vue.Render(w, "page.vuego", data)
+			err = vue.Render(w, "page.vuego", data)
 		case "frag":
-			_ = vue.RenderFragment(w, "page.vuego", data)
+			err = vue.RenderFragment(w, "page.vuego", data)
 		case "noload":
-			_ = root.New().Fill(data).Render(ctx, w)
+			err = root.New().Fill(data).Render(ctx, w)
 		case "noload-base":
-			_ = root.Fill(data).Render(ctx, w)
+			err = root.Fill(data).Render(ctx, w)
 		case "noload-assign":
-			_ = root.New().Assign("k", "v").Render(ctx, w)
+			err = root.New().Assign("k", "v").Render(ctx, w)
 		case "load-missing":
-			_ = root.Load("nope/missing.vuego").Fill(data).Render(ctx, w)
+			err = root.Load("nope/missing.vuego").Fill(data).Render(ctx, w)
 		case "load-empty-name":
-			_ = root.Load("").Fill(data).Render(ctx, w)
+			err = root.Load("").Fill(data).Render(ctx, w)
 		case "load-dir":
-			_ = root.Load("layouts").Fill(data).Render(ctx, w)
+			err = root.Load("layouts").Fill(data).Render(ctx, w)
 		case "file-missing":
-			_ = root.New().Fill(data).RenderFile(ctx, w, "nope/missing.vuego")
+			err = root.New().Fill(data).RenderFile(ctx, w, "nope/missing.vuego")
 		case "load-twice":
-			_ = root.Load("nope.vuego").Load("page.vuego").Fill(data).Render(ctx, w)
+			err = root.Load("nope.vuego").Load("page.vuego").Fill(data).Render(ctx, w)
 		case "noload-file-after":
 			t := root.New().Fill(data)
-			_ = t.Render(ctx, w)
-			_ = t.RenderFile(ctx, w, "page.vuego")
-			_ = t.Render(ctx, w)
+			err = t.Render(ctx, w)
+			err = t.RenderFile(ctx, w, "page.vuego")
+			err = t.Render(ctx, w)
 		}
 	}
 	renderOnce()
+	if c.WantErr && lastErr == nil && !fsys.Runaway() {
+		return fmt.Errorf("the page reaches an include cycle, but the %s entry point returned nil (and %d bytes of output) instead of an error", c.Entry, w.N)
+	}
 	if c.Redo != "" {
 		later := time.Unix(1_900_000_000, 0)
 		switch c.Redo {
@@ -566,11 +575,28 @@ func includeAt(e edge) string {
 		return `<template include="wrap.vuego"><template v-slot:s>` + inc + `</template></template>`
 	case "slotdefault":
 		return `<template include="wrap.vuego"><section>` + inc + `</section></template>`
+	case "elseif":
+		return `<div v-if="no">n</div><div v-else-if="yes">` + inc + `</div><div v-else>e</div>`
+	case "ifself":
+		// the include tag is itself the chain member
+		return `<template v-if="yes" include="` + e.to + `.vuego" :d="d"></template><i v-else>e</i>`
+	case "elseifself":
+		return `<i v-if="no">n</i><template v-else-if="yes" include="` + e.to + `.vuego" :d="d"></template><i v-else>e</i>`
+	case "elseself":
+		return `<i v-if="no">n</i><template v-else include="` + e.to + `.vuego" :d="d"></template>`
+	case "fallback":
+		// in the fallback of a slot nobody fills
+		return `<slot name="nobody"><b>fb</b>` + inc + `</slot>`
+	case "forself":
+		return `<template v-for="o in one" include="` + e.to + `.vuego" :d="d"></template>`
 	}
 	return inc
 }
 
-var places = []string{"plain", "if", "else", "for", "slot", "slotdefault"}
+var places = []string{"plain", "if", "else", "for", "slot", "slotdefault", "elseif", "ifself", "elseifself", "elseself", "fallback", "forself"}
+
+// newPlaces were added later; the quick tier uses them on the page's and a's edge only in part.
+var newPlaces = map[string]bool{"elseif": true, "ifself": true, "elseifself": true, "elseself": true, "fallback": true, "forself": true}
 
 func graphCase(pe, ae, be edge, layout string, entry string) Case {
 	fm := ""
@@ -862,6 +888,9 @@ func TestProp(t *testing.T) {
 				if !run.Thorough() && be.to != "" && be.place != "plain" && be.place != "for" {
 					continue
 				}
+				if !run.Thorough() && newPlaces[ae.place] && pe.place != "plain" && !newPlaces[pe.place] {
+					continue
+				}
 				gi++
 				lay := layouts[gi%len(layouts)]
 				ent := []string{"load", "file", "vue", "string"}[gi%4]
@@ -872,6 +901,7 @@ func TestProp(t *testing.T) {
 				c := graphCase(pe, ae, be, lay, ent)
 				_, cls := classify(c)
 				cyc := reachesCycle(pe, ae, be)
+				c.WantErr = cyc
 				cls = append(cls, "family=graph")
 				if cyc {
 					cls = append(cls, "include-cycle")
